@@ -41,6 +41,7 @@ NOT_CLAIMED = {}
 
 PROPS = {
     "C04": {
+        "traced_too": True,
         "coq": "Properties/C04.v",
         "level_text": "Theorem C04_decode_total_sound proves, for every byte string, that the decoder model never panics, "
                       "makes progress within the buffer, and produces a typed message only for the right 16-bit type code "
@@ -60,6 +61,7 @@ PROPS = {
         ],
     },
     "C07": {
+        "traced_too": True,
         "coq": "Properties/C07.v",
         "level_text": "Theorems C07_roundtrip, C07_roundtrip_framed and C07_concat prove for every in-range create/measurement/ready "
                       "message that encoding succeeds, decoding consumes exactly the encoded length and returns the same message, "
@@ -76,6 +78,7 @@ PROPS = {
         ],
     },
     "C08": {
+        "traced_too": True,
         "coq": "Properties/C08.v",
         "level_text": "Theorem C08_stale_free proves that iterating Backend::next's model from a fresh cursor over a receive buffer "
                       "of any size and any (stale) contents yields exactly a function of the scripted datagrams alone, for every "
@@ -97,7 +100,7 @@ PROPS = {
     },
     "C02": {
         'coq': 'Properties/C02.v',
-        'streams': ['loop'],
+        'streams': ['loop', 'loopadv'],
         'level_text': "C02_create / C02_measure characterise one dispatch step against the flat (address, flow id) -> handler view for every state, message, user behaviour and send-failure pattern (fresh handler per create with the message's details, replaced handler dropped without close, measurement delivered to exactly the bound handler with uid and values intact, empty measurement closes once and unbinds, unknown datapath/flow: nothing); C02_handlers_distinct gives distinct, never-reused handler identities in every reachable state.",
         'level_note': 'Coq kernel; no axioms; hand-written model of run_inner (src/run.rs), Datapath/Report (src/lib.rs) and Backend::next, with user callbacks and send failures as arbitrary oracles; tied to the code by running RunBuilder::run inline over a scripted Ipc with recording algorithms on the same histories (model and implementation logs compared after sorting hash-ordered DROP/INSTALL batches and renaming uids through the install messages). Assumes handles are used only inside the three callbacks.',
         'rule': 'structured random histories over 3 addresses x 4 flow ids: ready / create (9 algorithm names incl. prefixes, extensions, empty, 63 bytes) / measurement for live and dead flows / close / unknown, 1-4 messages per datagram (occasionally 10-14, exceeding the 1024-byte buffer), restarts, re-creates, receive errors, stop requests; 0-3 additional algorithms with duplicate names and absent instances, 6 table programs incl. a duplicate name and an uncompilable one; callbacks issue set_program/update_field/get_field lists; non-trivial = at least one report delivered or handler closed',
@@ -168,6 +171,7 @@ PROPS = {
         "nontrivial": NT_C18,
     },
     "C10": {
+        "traced_too": True,
         "coq": "Properties/C10.v",
         "level_text": "C10_compiler_total proves for every byte string and override list that compile_and_serialize's model returns an image or an "
                       "error — never Panic (each unreachable!/unwrap/assert/overflow site of the modelled code is a Panic outcome) and never out of "
@@ -183,6 +187,7 @@ PROPS = {
         "assumptions": ["native stack exhaustion on deep nesting is a runtime matter the model cannot exhibit; the stream runs depth 64"],
     },
     "C13": {
+        "traced_too": True,
         "coq": "Properties/C13.v",
         "level_text": "C13_declared_slots proves for every declaration list with names distinct from each other and from the built-ins that report "
                       "variable k gets report slot k (exactly 0..n-1), control variable k control slot k, with declared volatility and initial value, "
@@ -196,6 +201,7 @@ PROPS = {
         "assumptions": [],
     },
     "C14": {
+        "traced_too": True,
         "coq": "Properties/C14.v",
         "level_text": "C14_numeral (a numeral is its value or a hard failure, never a name), C14_small_accepted / C14_infinity / C14_unencodable_rejected / "
                       "C14_read_back_exact (the immediate the datapath reads back is exactly the literal's denotation), C14_no_silent (a serialized program "
@@ -277,6 +283,7 @@ PROPS = {
                         "set_cwnd/set_rate_abs take u32: settings are compared modulo 2^32"],
     },
     "C03": {
+        "traced_too": True,
         "coq": "Properties/C03.v",
         "level_text": "PROVED. C03_emitted_image_well_formed: for every source text and every list of compile-time overrides, if the compiler emits an image with fewer than 2^32 instructions "
                       "(the event table stores 32-bit indices, as the real code's u32 casts do), the independent byte-level decoder image_wf accepts it: 16-byte records, DEF preamble of report/control "
@@ -293,6 +300,7 @@ PROPS = {
         "assumptions": ["the number of events is taken from Bin.events.len(), as the install message's count field is"],
     },
     "C20": {
+        "traced_too": True,
         "coq": "Properties/C20.v",
         "level_text": "PROVED. The documented grammar is the relation lay_prog (Lang/Layout.v) between an abstract program and a text: any runs of "
                       "space/tab/CR/LF between tokens (empty wherever two tokens cannot fuse), either spelling of each operator, an optional newline-terminated comment before each event and any "
